@@ -6,6 +6,7 @@ FUNCTIONS += ['server.Server.disconnect']
 FUNCTIONS += ['server.Server.send', 'async_server.AsyncServer.send', 'server.Server.get_session',
               'server.Server.save_session', 'async_server.AsyncServer.get_session',
               'async_server.AsyncServer.save_session']
+FUNCTIONS += ['server.Server._handle_connect']
 
 LEVEL_TEXT = '_get_socket raises KeyError exactly for unknown or closed ids and reaps only the closed one; transport/get_session/save_session raise KeyError for dead ids and never touch another session (frame + unchanged()); send/send_packet on a dead id is a silent no-op; disconnect removes exactly that id / empties the table'
 LEVEL_NOTE = 'monitor sweep (_service_task) not yet under contract; session dict isolation relies on BaseSocket.__init__ allocating a fresh dict (inlined)'
